@@ -208,6 +208,8 @@ def run(ctx: Context) -> None:
         joins = [c for c in own_nodes(f.node) if isinstance(c, ast.Call) and norm(c.func) == "b''.join"]
         ok = len(joins) == 1 and isinstance(joins[0].args[0], (ast.ListComp, ast.GeneratorExp)) and not joins[0].args[0].generators[0].ifs and \
             norm(joins[0].args[0].elt) == norm(joins[0].args[0].generators[0].target) and norm(joins[0].args[0].generators[0].iter) in ("self.iter_stream()", "self.aiter_stream()")
+        # the synchronous flavour may hand the iterator to join() directly (join materialises it)
+        ok = ok or (len(joins) == 1 and len(joins[0].args) == 1 and m == "read" and norm(joins[0].args[0]) in ("self.iter_stream()", "list(self.iter_stream())"))
         rep.ob("C02.R4", f"shared|Response.{m}|join", ok, where(f), "read() joins every chunk of the stream in order")
     bs = models.classes["ByteStream"]
     for m in ("__iter__", "__aiter__"):
@@ -239,3 +241,17 @@ def run(ctx: Context) -> None:  # noqa: F811
     with ctx.rep.borrow({"C13.R5": ("C02.R8", "a well-formed HTTP/2 response is delivered in full however the server frames it: every DATA frame's flow-controlled length (payload AND padding) "
                                                "is returned as credit on its own stream and flushed - otherwise padded responses close the window and the body never completes:")}):
         c13.run(ctx)
+
+
+
+_core_run_r9 = run
+
+
+def run(ctx: Context) -> None:  # noqa: F811
+    _core_run_r9(ctx)
+    if ctx.rep._borrow is not None:
+        return
+    from .c12 import read_recheck
+
+    read_recheck(ctx, "C02.R9", "the response is delivered however the transport splits the byte stream across reads: when one segment carries the frames of two streams, the "
+                                "second caller finds its response in its queue instead of waiting for bytes that were already consumed")
